@@ -1029,6 +1029,28 @@ def shrink(case):
         yield [op, text[:i] + text[i + 1:]] + case[2:]
 
 
+# ---------------------------------------------------------------- the source-level tie (tools/py2coq_c18.py)
+
+
+def extra_obligations(tier):
+    """URL.replace, URL.__repr__, URL.replace_query_params, URL.include_query_params and URL.remove_query_params are translated to
+    Gallina from the source in BAIZE_REPO as it is now (tools/py2coq_c18.py: the keyword arguments of replace as a typed finite
+    map over the nine literal keys; self.port / .username / .password / .netloc / .query / .components, SplitResult._replace,
+    geturl, the constructor, str(self), repr(text), parse_qsl, urlencode mapped to the model's port_of / username_of /
+    password_of / netloc / query / ucomps, PyLib.comps_replace, unsplit, mk_url, ustr, py_repr, parse_qsl, urlencode; the str
+    and MutableMultiMapping operations to C18/PyLib.v; self.replace(..) inside the other four to the translated replace), and coqc
+    re-checks C18/Translated.v against the fresh definitions: each translated function = the function of C18.Model (replace,
+    repr, replace_q, include_q, remove_q) for every URL and all arguments.  One obligation per function; a function the
+    translator refuses is "not applicable" (None, no alarm) and does not hide the others.  Last obligation: the str functions of
+    C18/PyLib.v give what this interpreter's str methods give (by evaluation)."""
+    import importlib.util
+    import os
+    spec = importlib.util.spec_from_file_location("py2coq_c18", os.path.join(core.VERIF, "tools", "py2coq_c18.py"))
+    py2coq_c18 = importlib.util.module_from_spec(spec)
+    spec.loader.exec_module(py2coq_c18)
+    return py2coq_c18.obligations(core.REPO, core.VERIF)
+
+
 if __name__ == "__main__":
     import sys
     core.main(sys.modules[__name__])
